@@ -63,7 +63,11 @@ class PaneBase:
         custom: t.Optional[IntoConverterHandlers] = None,
         **kwargs: t.Any,
     ):
-        old_params = getattr(cls, '__parameters__', ())
+        if '__parameters__' in cls.__dict__:
+            old_params = cls.__dict__['__parameters__']  # (set by _make_subclass)
+        else:
+            # type parameters left open by the (possibly several) subscripted bases
+            old_params = tuple(p for base in cls.__bases__ for p in getattr(base, '__parameters__', ()))
         super().__init_subclass__(*args, **kwargs)
         # (a variable forwarded to a base *and* re-declared in Generic[...] must only be listed once,
         # and an explicit Generic[...] decides the order, as it does for ordinary generic classes)
